@@ -118,9 +118,64 @@ func genCase(t *rapid.T) Case {
 		chainLen = rapid.IntRange(4, 7).Draw(t, "chainLen")
 		n = chainLen + rapid.IntRange(1, 3).Draw(t, "chainTail")
 	}
+	// shape "train, mixed": the quantiser is still untrained; one update batch gives vectors to points that
+	// had none and removes ("_delete") the vectors of others, so that the number of vectors passes the
+	// trigger inside the batch but ends below it: whether the index trains must not depend on what the
+	// shared cache holds (the running instance has answered searches, copies start cold)
+	trainMixed := train && rapid.IntRange(0, 2).Draw(t, "trainMixed") == 0
+	var mixedBare []uuid.UUID
 	for i := 0; i < n; i++ {
 		var st gen.Step
 		switch {
+		case trainMixed && i == 0:
+			k := rapid.IntRange(1, trainTrigger-1).Draw(t, "mixedEarly")
+			st = trainInsert("mixedA", 0, k)
+			for _, p := range st.Points {
+				trainEarly = append(trainEarly, p.Id)
+			}
+			bare := gen.Step{Kind: "insert"}
+			for j := 0; j < trainTrigger+2 && k+j < len(g.Pool); j++ {
+				doc := gen.GenDoc(t, fmt.Sprintf("mixedBare%d-", j), schema, ho)
+				for _, prop := range trainProps {
+					delete(doc, prop)
+				}
+				bare.Points = append(bare.Points, model.Point{Id: g.Pool[k+j], Doc: doc})
+				mixedBare = append(mixedBare, g.Pool[k+j])
+			}
+			g.M.Insert(bare.Points)
+			st.Points = append(st.Points, bare.Points...)
+		case trainMixed && i == 1:
+			extra := rapid.IntRange(0, min(1, len(trainEarly)-1)).Draw(t, "mixedExtra")
+			add := trainTrigger - len(trainEarly) + extra
+			remove := rapid.IntRange(extra+1, len(trainEarly)).Draw(t, "mixedRemove")
+			st = gen.Step{Kind: "update", Note: "train: vectors added and removed in one batch around the trigger"}
+			vec := func(label, prop string) []float32 {
+				if prop == gen.PFlat {
+					return gen.GenVector(t, label, int(schema[prop].VectorFlat.VectorSize), schema[prop].VectorFlat.DistanceMetric)
+				}
+				return gen.GenVector(t, label, int(schema[prop].VectorVamana.VectorSize), schema[prop].VectorVamana.DistanceMetric)
+			}
+			var pts []model.Point
+			for j := 0; j < add && j < len(mixedBare); j++ {
+				d := model.Doc{}
+				for _, prop := range trainProps {
+					d[prop] = vec(fmt.Sprintf("mixedAdd%d-%s", j, prop), prop)
+				}
+				pts = append(pts, model.Point{Id: mixedBare[j], Doc: d})
+			}
+			for j := 0; j < remove; j++ {
+				d := model.Doc{}
+				for _, prop := range trainProps {
+					d[prop] = model.DeleteValue
+				}
+				pts = append(pts, model.Point{Id: trainEarly[j], Doc: d})
+			}
+			// adds first, removals first, or interleaved
+			perm := rapid.Permutation(seqInts(len(pts))).Draw(t, "mixedOrder")
+			for _, k := range perm {
+				st.Points = append(st.Points, pts[k])
+			}
+			g.M.Update(st.Points)
 		case train && i == 0:
 			st = trainInsert("trainA", 0, rapid.IntRange(1, trainTrigger-1).Draw(t, "trainEarly"))
 			for _, p := range st.Points {
@@ -157,6 +212,12 @@ func genCase(t *rapid.T) Case {
 		k := rapid.IntRange(1, nq).Draw(t, fmt.Sprintf("nq%d", i))
 		for j := 0; j < k; j++ {
 			q := gen.AnyQuery(t, fmt.Sprintf("q%d.%d", i, j), g.M, g.Pool)
+			gen.MustValid(q, schema)
+			qs = append(qs, q)
+		}
+		if _, hasFlat := schema[gen.PFlat]; trainMixed && hasFlat && i <= 1 {
+			// a flat search reads every stored vector into the shared cache of the running instance
+			q := gen.RankLeaf(t, fmt.Sprintf("qflat%d", i), g.M, g.Pool, gen.PFlat)
 			gen.MustValid(q, schema)
 			qs = append(qs, q)
 		}
@@ -322,6 +383,15 @@ func execCase(c Case) (res vt.Result) {
 		if d := obsFile.Diff(obsMem); d != "" && !learnedQuantiser(c.H.Schema) {
 			return fail(i, "file backend and in-memory backend answer differently: %s", d)
 		}
+		// the same history on an instance that never had a cache: what an index learns from its data (a
+		// quantiser's threshold) must not depend on what a cache happened to hold when the batch arrived
+		obsMemCold, err := oracle.Observe(memCold, pool, suite, oracle.ObserveOpts{})
+		if err != nil {
+			return fail(i, "in-memory backend with the cache disabled: %v", err)
+		}
+		if d := obsMem.Diff(obsMemCold); d != "" {
+			return fail(i, "two in-memory instances given the same batches, one with a shared cache and one with the cache disabled, answer differently: %s", d)
+		}
 		if err := drive.StrayVerdict(r.S); err != nil {
 			return fail(i, "%v", err)
 		}
@@ -364,3 +434,11 @@ var _ = model.Show
 
 func TestPropDurable(t *testing.T)   { vt.Check(t, "durable", genCase, execCase) }
 func TestReplayDurable(t *testing.T) { vt.Replay(t, "durable", execCase) }
+
+func seqInts(n int) []int {
+	r := make([]int, n)
+	for i := range r {
+		r[i] = i
+	}
+	return r
+}
